@@ -217,7 +217,7 @@ func randDistRows(rng *rand.Rand, tier string) [][]int {
 	for i := range base {
 		base[i] = int("ACGT"[rng.Intn(4)])
 	}
-	kind := rng.Intn(7)
+	kind := rng.Intn(8)
 	rows := make([][]int, n)
 	if kind == 6 {
 		// differences of ONE kind only, up to saturation: pyrimidine transitions (C<->T), or purine ones, per row
@@ -254,6 +254,9 @@ func randDistRows(rng *rand.Rand, tier string) [][]int {
 				row[i] = int("ACGT"[rng.Intn(4)])
 			}
 			switch x := rng.Intn(40); {
+			case kind == 7 && x < 10:
+				// rows rich in ambiguity codes: every code meets every nucleotide and every other code, on both strands
+				row[i] = int("RYSWKMBDHVN"[rng.Intn(11)])
 			case x == 0 && kind >= 2:
 				row[i] = int("RYSWKMBDHVN"[rng.Intn(11)])
 			case x == 1 && kind >= 3:
@@ -301,6 +304,11 @@ func randDistOpts(rng *rand.Rand, L int) distOpts {
 		o.Wts = make([]int, L)
 		for i := range o.Wts {
 			o.Wts[i] = []int{4, 4, 8, 12, 1, 2, 6, 20}[rng.Intn(8)]
+		}
+		if rng.Intn(4) == 0 {
+			// one site standing for 150 000 sites (weights are quarters): a raw distance above 100 000 is a count like any
+			// other, not an uncomputable entry
+			o.Wts[rng.Intn(L)] = 600000
 		}
 	}
 	return o
@@ -395,6 +403,21 @@ func distRelations(env *Env, rng *rand.Rand, id string, rows [][]int, o distOpts
 			o3.Wts[c] = 4 * k
 		}
 		emitRel("close", fmt.Sprintf("weight=%d", k), scale, identityPerm(len(rows)), rows, o3, cpus)
+		if o.Model == "rawdist" || rng.Intn(4) == 0 {
+			// every site standing for 60 000 sites (a genome-scale alignment): proportions and corrected distances are
+			// unchanged, the raw distance is 60 000 times larger - a count, however large
+			big := 60000
+			o4 := o
+			o4.Wts = make([]int, L)
+			for c := range o4.Wts {
+				o4.Wts[c] = 4 * big
+			}
+			sc := 1
+			if o.Model == "rawdist" {
+				sc = big
+			}
+			emitRel("close", fmt.Sprintf("weight=%d", big), sc, identityPerm(len(rows)), rows, o4, cpus)
+		}
 	case 3: // explicit unit weights
 		if len(o.Wts) > 0 {
 			break
